@@ -45,7 +45,7 @@
 EXTENDS Integers, Sequences, FiniteSets, TLC
 
 CONSTANTS Versions,    \* versions a tracker may be opened with; 0 = StoreVersionNone
-          Scope        \* "mc" | "lts" | "trace": which stimuli Next offers (Do covers all)
+          Scope        \* "mc" | "ltsM" | "ltsV" | "trace": which stimuli Next offers (Do covers all)
 
 VARIABLES cfg,         \* [ver, fn] of the first incarnation
           disk, mem,   \* <<version, corrupted, tainted>> on disc / as the running process sees it
@@ -157,9 +157,10 @@ InitState(c) ==
   /\ alive = "up" /\ myver = c.ver /\ hasfn = c.fn
   /\ mustCor = FALSE /\ mustTnt = FALSE /\ healthyOk = FALSE /\ healthyDur = FALSE
 
-(* every (version, function) pair is reachable through Restart from any first incarnation, so the *)
-(* exported transition system starts from two of them only                                         *)
-Cfgs == IF Scope = "lts" THEN {[ver |-> 0, fn |-> FALSE], [ver |-> 2, fn |-> TRUE]} ELSE [ver : Versions, fn : BOOLEAN]
+(* every (version, function) pair is reachable through Restart from any first incarnation *)
+Cfgs == CASE Scope = "ltsM" -> {[ver |-> 1, fn |-> FALSE]}
+          [] Scope = "ltsV" -> {[ver |-> 0, fn |-> FALSE], [ver |-> 2, fn |-> TRUE]}
+          [] OTHER          -> [ver : Versions, fn : BOOLEAN]
 Init == /\ cfg \in Cfgs
         /\ InitState(cfg)
         /\ ev = [op |-> "reset", cfg |-> cfg]
@@ -188,17 +189,28 @@ FullStimuli ==
   Op(TwoOps \cup OneOps, NoPlan) \cup UpdateStim(NoPlan)
   \cup Op(TwoOps, PlansUpTo(2)) \cup Op(OneOps, PlansUpTo(1)) \cup UpdateStim(PlansUpTo(2))
   \cup RestartStim(Versions, BOOLEAN, {"keep", "lose"}, NoPlan \cup PlansUpTo(2))
-(* the exported transition system is thinned out where stimuli are equivalent by construction: a     *)
-(* process that stops before or after a READ leaves the same state (only "after" is kept); a tracker *)
-(* has an update function iff it is opened with version 2 (so both "nofunc" and the migration occur, *)
-(* and hasfn is a function of myver); plans on the constructor only with fate keep                   *)
-LtsStimuli ==
-  Op(TwoOps \cup OneOps, NoPlan) \cup UpdateStim(NoPlan)
-  \cup Op(TwoOps, PlansUpTo(2)) \cup Op(OneOps \ ReadOps, PlansUpTo(1)) \cup UpdateStim(PlansUpTo(2))
-  \cup Op(ReadOps, [k : {1}, mode : {"after", "fail"}])
+(* Two exported transition systems, each complete in its own dimension (their product is left to the *)
+(* exhaustive run and to the recorded histories):                                                    *)
+(*  "ltsM" markers: every marker call with every plan, one version (Versions = {1} in the cfg file); *)
+(*  "ltsV" versions: open / check / update with every plan over versions 0, 1, 2; a tracker has an   *)
+(*         update function iff it is opened with version 2 (so "nofunc" and the migration both occur *)
+(*         and hasfn is a function of myver); the corrupted marker takes part with plain calls.      *)
+(* Equivalent by construction and therefore thinned: a process that stops before or after a READ     *)
+(* leaves the same state (only "after" is kept); plans on the constructor only with fate keep.       *)
+MarkerReads == {"IsCorrupted", "IsTainted"}
+LtsMStimuli ==
+  Op(TwoOps \cup {"MarkHealthy", "Flush"} \cup MarkerReads, NoPlan)
+  \cup Op(TwoOps, PlansUpTo(2)) \cup Op({"MarkHealthy", "Flush"}, PlansUpTo(1))
+  \cup Op(MarkerReads, [k : {1}, mode : {"after", "fail"}])
+  \cup RestartStim(Versions, {FALSE}, {"keep", "lose"}, NoPlan)
+  \cup RestartStim(Versions, {FALSE}, {"keep"}, PlansUpTo(2))
+VersionReads == {"StoreVersion", "Check"}
+LtsVStimuli ==
+  Op(VersionReads \cup {"Flush", "MarkCorrupted", "MarkHealthy", "IsCorrupted"}, NoPlan) \cup UpdateStim(NoPlan)
+  \cup Op(VersionReads, [k : {1}, mode : {"after", "fail"}]) \cup Op({"Flush"}, PlansUpTo(1)) \cup UpdateStim(PlansUpTo(2))
   \cup UNION {RestartStim({v}, {v = 2}, {"keep", "lose"}, NoPlan) : v \in Versions}
   \cup UNION {RestartStim({v}, {v = 2}, {"keep"}, PlansUpTo(2)) : v \in Versions \ {0}}
-Stimuli == IF Scope = "lts" THEN LtsStimuli ELSE FullStimuli
+Stimuli == CASE Scope = "ltsM" -> LtsMStimuli [] Scope = "ltsV" -> LtsVStimuli [] OTHER -> FullStimuli
 
 (* a dead object can only be restarted; UpdateStoreVersion on a tracker opened with StoreVersionNone *)
 (* ("load an existing store without a version check") is outside the contract                       *)
